@@ -137,3 +137,44 @@ class AttachInfo:
   ]
   total = True
   props = ["C16", "C18"]
+
+
+@contract(f"{U}::Bytes2Int")
+class Bytes2Int:
+  params = {"bytes_val": "bytes"}
+  returns = "int"
+  ensures = ["result == bval(bytes_val)", "result >= 0", ("C09", "result < pow2(8 * blen(bytes_val))")]
+  returns_expr = "bval(bytes_val)"
+  total = True
+  props = ["C09", "C18"]
+
+
+@contract(f"{U}::Int2Bytes")
+class Int2Bytes:
+  params = {"int_val": "int"}
+  returns = "bytes"
+  requires = ["int_val >= 0"]
+  ensures = [("C09", "bval(result) == int_val"), ("C09", "blen(result) == (bit_length(int_val) + 7) // 8")]
+  total = True
+  props = ["C09", "C18"]
+
+
+@contract(f"{U}::AttachFactors")
+class AttachFactors:
+  """Body uses str(set)/ast.literal_eval/format: outside the VC generator's string reach -> assumed frame contract,
+  exercised by the bounded tier (bounded/c16.py: attach_factors_roundtrip)."""
+  params = {"test_info": "rec:TestInfo", "info_name": "str", "factors": "opaque"}
+  returns = "none"
+  assumed = True
+  assumed_why = ("string round trip str(set)/ast.literal_eval not modelled; frame only: test_results, weak and version "
+                 "untouched (bounded tier checks factors' = old | new)")
+  modifies = ["test_info.attached_info"]
+  ensures = ["wf_info(test_info)"]
+
+
+@contract(f"{U}::GetAttachedFactors")
+class GetAttachedFactors:
+  params = {"test_info": "rec:TestInfo", "info_name": "str"}
+  returns = "opaque"
+  assumed = True
+  assumed_why = "ast.literal_eval round trip not modelled (bounded tier)"
